@@ -407,7 +407,7 @@ def base_nets(chunk, r):
         _, idx, count = chunk
         for _ in range(count):
             net = G.random_net(r, n_inputs=r.randint(0, 4), k_gates=r.randint(0, 8), max_nary=4, max_outputs=4, allow_no_outputs=True,
-                               permute_storage=True)
+                               permute_storage=True, large_every=60)
             yield plain_labels(net)
 
 
